@@ -184,6 +184,10 @@ def gen_layout(rng):
                 if math.sqrt(a / math.pi) > rmax:
                     a = 0.1
             m = {"name": f"M{i}", "kind": "soft", "area": a}
+            if rng.random() < 0.3:
+                # a soft module that already carries a (stale, smaller) rectangle: its disc is still that of its area
+                sd = math.sqrt(a) / rng.choice([2, 3, 4])
+                m["rects"] = [[float(W) / 2, float(H) / 2, sd, sd]]
             if nf == 0 or rng.random() < 0.5:
                 m["center"] = [rng.uniform(0, fw), rng.uniform(0, fh)] if decimal or rng.random() < 0.3 else \
                     [dy(rng, 0, W, 8), dy(rng, 0, H, 8)]
@@ -306,7 +310,10 @@ def layout_yaml(case):
         k = m["kind"]
         if k == "soft":
             c = f", center: [{num(m['center'][0])}, {num(m['center'][1])}]" if "center" in m else ""
-            lines.append(f"  {m['name']}: {{area: {num(m['area'])}{c}}}")
+            rsoft = ""
+            if m.get("rects"):
+                rsoft = ", rectangles: [" + ", ".join("[" + ", ".join(num(v) for v in r) + "]" for r in m["rects"]) + "]"
+            lines.append(f"  {m['name']}: {{area: {num(m['area'])}{c}{rsoft}}}")
         elif k in ("hard", "fixed"):
             rs = ", ".join("[" + ", ".join(num(v) for v in r) + "]" for r in m["rects"])
             lines.append(f"  {m['name']}: {{rectangles: [{rs}], {'fixed' if k == 'fixed' else 'hard'}: true}}")
